@@ -77,6 +77,8 @@ class Gen:
       "cylinder": p(0.3),
       "mesh": False,
       "dense_contacts": p(0.5),
+      "eq_many": p(0.15),  # more equalities than coordinates (size relations such as neq > nq)
+      "tiny": p(0.15),  # one shallow tree: nq, nv small relative to nu, na, neq, nsensordata, nuserdata
     }
     if features:
       self.ft.update(features)
@@ -182,7 +184,7 @@ class Gen:
     sname = f"s{b}"
     s += f'{ind}  <site name="{sname}" pos="{_f([self.u(-0.05, 0.05), self.u(-0.05, 0.05), self.u(0.0, 0.1)])}" size="0.01"/>\n'
     self.sites.append((sname, b))
-    maxdepth = {"s": 2, "m": 3, "l": 4}[self.size]
+    maxdepth = 1 if self.ft["tiny"] else {"s": 2, "m": 3, "l": 4}[self.size]
     if depth < maxdepth:
       nchild = int(r.choice([0, 1, 1, 2])) if depth > 0 else int(r.choice([0, 1, 1, 2]))
       for c in range(nchild):
@@ -198,7 +200,7 @@ class Gen:
 
   def build(self):
     r, ft = self.r, self.ft
-    ntree = int(r.integers(1, {"s": 3, "m": 4, "l": 6}[self.size] + 1))
+    ntree = 1 if ft["tiny"] else int(r.integers(1, {"s": 3, "m": 4, "l": 6}[self.size] + 1))
     wb = ""
     if ft["plane"]:
       wb += '    <geom name="floor" type="plane" size="0 0 1" pos="0 0 0"'
@@ -214,7 +216,7 @@ class Gen:
       self.geoms.append("gmc0")
     for t in range(ntree):
       roots = ["hinge"]
-      if ft["free"]:
+      if ft["free"] and not ft["tiny"]:
         roots += ["free", "free"]
       if ft["ball"]:
         roots.append("ball")
@@ -289,6 +291,14 @@ class Gen:
       t2 = f'tendon2="{self.tendons[1]}"' if len(self.tendons) >= 2 and r.random() < 0.5 else ""
       eq += f'    <tendon name="eqt" tendon1="{self.tendons[0]}" {t2} polycoef="{_f(self.u(-0.1, 0.1))} 1 0 0 0"{active()}/>\n'
       neq += 1
+
+    if ft["eq_many"]:
+      for k in range(int(r.integers(2, 6))):
+        if hs and r.random() < 0.5:
+          eq += f'    <joint name="eqm{k}" joint1="{self.ch(hs)[0]}" polycoef="{_f(self.u(-0.2, 0.2))} 0 0 0 0"{active()}/>\n'
+        else:
+          eq += f'    <connect name="eqm{k}" body1="{self.ch(self.bodies)[0]}" anchor="{_f([self.u(-0.1, 0.1), self.u(-0.1, 0.1), self.u(-0.1, 0.1)])}"{active()}/>\n'
+        neq += 1
 
     # contact pairs / excludes
     con = ""
@@ -506,6 +516,7 @@ def load_mjm(spec):
       if v:
         mjm.opt.enableflags |= ENBL["SLEEP"]
         mjm.opt.disableflags &= ~DSBL["ISLAND"]
+        mjm.opt.solver = SOLVERS["newton"]  # put_model: sleeping requires the Newton solver
     else:
       setattr(mjm.opt, k, v)
   return mjm
